@@ -25,7 +25,7 @@ def failing_op(rng):
     k, r = rng.choice([(2, 0), (2, 1), (3, 0), (3, 2), (1, 0), (4, 1)])
     kind = rng.choice(['map', 'map', 'filter', 'scan', 'scan_reduce', 'starmap'])
     # the exception the user function raises: any class (an operator must not mistake it for one of its own)
-    f = ['raise_if_mod', k, r] + rng.choice([[], [], ['TypeError'], ['KeyError'], ['ZeroDivisionError'], ['AttributeError'], ['IndexError']])
+    f = ['raise_if_mod', k, r] + rng.choice([[], [], ['TypeError'], ['KeyError'], ['ZeroDivisionError'], ['AttributeError'], ['IndexError'], ['FalsyError']])
     if kind == 'map':
         return [['map', f]], (k, r), 'map'
     if kind == 'starmap':
